@@ -372,6 +372,16 @@ func ComputeStateKeyWithWordAndMatch(nfaStates []nfa.StateID, isFromWord bool, i
 	return StateKey(h.Sum64())
 }
 
+// orderedStateKey folds the ORDER of the NFA states into an (order-insensitive) key.
+// Needed for leftmost-first DFAs, where thread priority is part of the state identity.
+func orderedStateKey(key StateKey, nfaStates []nfa.StateID) StateKey {
+	h := uint64(key)
+	for _, sid := range nfaStates {
+		h = (h ^ uint64(sid)) * 1099511628211 // FNV-1a step
+	}
+	return StateKey(h)
+}
+
 // sortStateIDs performs insertion sort on NFA state IDs.
 //
 // Insertion sort is used because:
